@@ -31,13 +31,19 @@ class Index:
         self.lost = [r for r in w.requests if r.fault and ('lost' in r.fault)]
         self.uids = [u for u, vs in w.history.items() if vs and vs[0]['plural'] == plural]
 
-    def known_version(self, inc: str, uid: str, g: int) -> int:
-        """Newest version of uid that incarnation ``inc`` got as a response to its own write before position g."""
+    def known_version(self, inc: str, uid: str, g: int, t: float | None = None) -> int:
+        """
+        Newest version of uid that incarnation ``inc`` got as a response to its own write before position g --
+        not counting writes older than the consistency timeout at time t (after it the framework documents that it
+        proceeds on whatever view it has; the statement excludes echo delays beyond that timeout).
+        """
+        ct = float((self.w.desc.get('settings') or {}).get('persistence__consistency_timeout', 5.0) or 0.0)
         k = 0
         for r in self.writes:
             if r.client == inc and r.landed_uid == uid and r.g_done is not None and r.g_done < g and not r.lost:
-                if r.result_rv != r.prev_rv or True:
-                    k = max(k, int(r.result_rv))
+                if t is not None and t >= r.t_done + ct - 1e-9:
+                    continue
+                k = max(k, int(r.result_rv))
         return k
 
     def _unused(self) -> None:
@@ -111,7 +117,7 @@ def oracle_progress(w: World, ix: Index | None = None) -> list[dict[str, Any]]:
             viol.append({'mech': 'rerun-finished-in-view', 'msg': f"{hid} invoked on {uid} although its own view records it as finished: {rec_view}",
                          'witness': {'call': _brief(e), 'record': rec_view}})
         v = int(e['rv']) if e.get('rv') and str(e['rv']).isdigit() else 0
-        k = ix.known_version(e['inc'], uid, e['g'])
+        k = ix.known_version(e['inc'], uid, e['g'], e['t'])
         body = w.body_at(uid, max(v, k))
         rec_srv = sv.record(body, hid)
         if finished(rec_srv) and not finished(rec_view):
@@ -121,6 +127,35 @@ def oracle_progress(w: World, ix: Index | None = None) -> list[dict[str, Any]]:
         if e.get('retry') is not None and e['retry'] != expected:
             viol.append({'mech': 'retry-mismatch', 'msg': f"{hid} on {uid}: retry={e['retry']} but the record in its view says {expected} attempts",
                          'witness': {'call': _brief(e), 'record': rec_view}})
+    # (2b) in runs without restarts, kills or lost responses the retry number is the number of earlier attempts of this
+    # handler on this object in the still-open cycle, counted by the recorder (not read from kopf's own record)
+    if not ix.kills and not ix.lost and len(w.incs) == 1:
+        for uid in ix.uids:
+            name = w.history[uid][0]['body']['metadata'].get('name')
+            if any(r.kind == 'patch' and r.name == name and r.status != 200 for r in w.requests):
+                continue   # an attempt whose record could not be written (404/422) is legitimately not "recorded"
+            closes_g = [cw.g for cw in ix.closing_writes(uid)] + [fr.g for fr in ix.finalizer_removals(uid)]
+            attempts: dict[str, int] = {}
+            last_reason: dict[str, str] = {}
+            marks = sorted(closes_g)
+            mi = 0
+            for e in w.events:
+                if e.get('uid') != uid or e['k'] not in ('call', 'ret') or e.get('kind') not in CHANGING:
+                    continue
+                while mi < len(marks) and marks[mi] < e['g']:
+                    attempts.clear()
+                    mi += 1
+                h = e['h']
+                if e['k'] == 'call':
+                    if last_reason.get(h) not in (None, e.get('reason')):
+                        attempts[h] = 0      # superseded by another cause: a new purpose starts from scratch or is re-purposed
+                    last_reason[h] = e.get('reason')
+                    if e.get('retry') is not None and e['retry'] < attempts.get(h, 0) and not ix.specs.get(h, {}).get('subs'):
+                        viol.append({'mech': 'retry-undercount', 'msg': f"{h} on {uid}: invoked with retry={e['retry']} although it was already "
+                                     f"attempted {attempts.get(h, 0)} time(s) in this cycle", 'witness': _brief(e)})
+                else:
+                    if e['outcome'] != 'cancelled':
+                        attempts[h] = attempts.get(h, 0) + 1
     # cycle closure
     by_kind: dict[str, list[str]] = {}
     for hid, spec in ix.specs.items():
@@ -139,7 +174,8 @@ def oracle_progress(w: World, ix: Index | None = None) -> list[dict[str, Any]]:
                 continue
             missing.append(h)
         return missing
-    clean = not ix.kills and not ix.lost
+    # 'absent crashes ...': a stop that cancels a running pass loses its in-memory outcomes exactly like a crash does
+    clean = not ix.kills and not ix.lost and len(w.incs) == 1
     for uid in ix.uids:
         closes = ix.closing_writes(uid)
         finals = [(r['g'], r['h'], r['outcome']) for r in ix.rets.values()
@@ -147,17 +183,32 @@ def oracle_progress(w: World, ix: Index | None = None) -> list[dict[str, Any]]:
         prev_g = 0
         for cw in closes:
             before = w.body_at(uid, cw.prev_rv)
-            reason = 'create' if sv.diffbase(before) is None else 'update'
-            if before is not None and before['metadata'].get('deletionTimestamp'):
-                reason = 'delete'   # a deletion supersedes whatever was in progress; its closure may store the state too
-            required = [h for h in by_kind.get(reason, []) if not (reason == 'delete' and (ix.specs[h].get('opts') or {}).get('optional'))]
+            # Which cause was being handled? The operator acted on ITS view, which may be older than the server state:
+            # take the reason reported to the handlers invoked in this window; if none was invoked, every cause
+            # consistent with some view between the last processed and the current version is a candidate.
+            window_calls = [c for c in ix.calls if c['uid'] == uid and c['kind'] in CHANGING and prev_g < c['g'] <= cw.g and c.get('reason')]
+            if window_calls:
+                candidates = [window_calls[-1]['reason']]
+            else:
+                candidates = ['create' if sv.diffbase(before) is None else 'update']
+                if before is not None and before['metadata'].get('deletionTimestamp'):
+                    candidates.append('delete')
             done = {h for g, h, o in finals if prev_g < g <= cw.g}
             # handlers finished earlier in this cycle and still recorded as such on the server also count
             for h in list(ix.specs):
                 if finished(sv.record(before, h)):
                     done.add(h)
-            missing = unsatisfied(required, done)
-            if missing and _unfiltered(ix, required):
+                # ... or in the (possibly stale, post-timeout) view the operator acted on
+                for c in window_calls:
+                    if finished(sv.record({'metadata': {'annotations': c.get('annotations') or {}}, 'status': c.get('status') or {}}, h)):
+                        done.add(h)
+            problems = []
+            for reason in candidates:
+                required = [h for h in by_kind.get(reason, []) if not (reason == 'delete' and (ix.specs[h].get('opts') or {}).get('optional'))]
+                missing = unsatisfied(required, done) if _unfiltered(ix, required) else []
+                problems.append((reason, missing))
+            if all(m for _, m in problems):
+                reason, missing = problems[0]
                 viol.append({'mech': 'closed-early', 'msg': f"{uid}: {reason} cycle closed (last-handled state stored by request #{cw.idx}) "
                              f"while {missing} had no final outcome", 'witness': {'write': cw.brief(), 'finals': finals[-8:]}})
             if clean:
